@@ -53,6 +53,14 @@ impl Signature {
         Ok(Signature { sig, recovery: None })
     }
 
+    /// Parses a DER signature exactly as it stands (no trailing sighash flag allowed)
+    pub(crate) fn from_strict_der_impl(bytes: &[u8]) -> Result<Signature, BSVErrors> {
+        Ok(Signature {
+            sig: SecpSignature::from_der(bytes)?,
+            recovery: None,
+        })
+    }
+
     pub(crate) fn from_hex_der_impl(hex: &str) -> Result<Signature, BSVErrors> {
         let bytes = hex::decode(hex)?;
         Signature::from_der_impl(&bytes)
